@@ -59,6 +59,19 @@ pub fn check_kb(c: &KB) -> CaseResult {
     ensure!(de[..] == blk[..], "entry=Sm4Cipher decrypt(encrypt(x))!=x", "key={} x={} got={}", hex::encode(key), hex::encode(blk), hex::encode(&de));
     let ed = lib_block(&lib, false, &d)?;
     ensure!(ed[..] == blk[..], "entry=Sm4Cipher encrypt(decrypt(y))!=y", "key={} y={} got={}", hex::encode(key), hex::encode(blk), hex::encode(&ed));
+    // the same key and block handed over as windows at byte offsets 1..=3 of larger buffers: the result may not depend on where the bytes live
+    for off in 1..=3usize {
+        let mut kbuf = vec![0xA5u8; off];
+        kbuf.extend_from_slice(&key);
+        let mut bbuf = vec![0x5Au8; off];
+        bbuf.extend_from_slice(&blk);
+        bbuf.push(0xEE);
+        let lib2 = lib_new(&kbuf[off..])?;
+        let e2 = lib_block(&lib2, false, &bbuf[off..off + 16])?;
+        ensure!(e2 == e, "entry=Sm4Cipher::encrypt outcome=depends-on-buffer-alignment", "key={} block={} at byte offset {} of a buffer: {} instead of {}", hex::encode(key), hex::encode(blk), off, hex::encode(&e2), hex::encode(&e));
+        let d2 = lib_block(&lib2, true, &bbuf[off..off + 16])?;
+        ensure!(d2 == d, "entry=Sm4Cipher::decrypt outcome=depends-on-buffer-alignment", "key={} block={} at byte offset {} of a buffer: {} instead of {}", hex::encode(key), hex::encode(blk), off, hex::encode(&d2), hex::encode(&d));
+    }
     let nt = hex::encode(key) != SUITE_KEY;
     pass(nt, "both-directions")
 }
@@ -105,7 +118,7 @@ pub struct Idx {
 
 pub fn run(ctx: &Ctx) {
     ctx.set_rule(
-        "cases are (key, block) pairs, each checked in both directions (enc == ref, dec == ref, dec(enc(x)) == x, enc(dec(y)) == y): \
+        "cases are (key, block) pairs, each checked in both directions (enc == ref, dec == ref, dec(enc(x)) == x, enc(dec(y)) == y; and again with key and block passed as windows at byte offsets 1..3 of larger buffers): \
          all single-bit keys x single-bit blocks (128x128), all repeated-byte keys x blocks (256x256), inputs crafted with the reference key \
          schedule so that every S-box input value passes through all four lanes in round 1 of the data path and of the key schedule, \
          proptest keys/blocks (uniform, repeated-byte, single-bit, single-zero-bit), call histories on one cipher object compared with a \
